@@ -200,8 +200,17 @@ def tlc(module, cfg=None, workers=8, timeout=900, env=None, simulate=None, depth
         raise ToolError("specification-level failure in %s (%s): %s violated\n%s" % (
             module, cfg, r.violated, p.stdout[-3000:]))
     if p.returncode != 0:
-        raise ToolError("TLC failed on %s (%s), rc=%d\n%s" % (
+        err = ToolError("TLC failed on %s (%s), rc=%d\n%s" % (
             module, cfg, p.returncode, (p.stdout + p.stderr)[-4000:]))
+        # what kind of failure (first lines of the error report) and how far TLC got, for the caller
+        err.generated = r.generated
+        m = re.search(r"^Error: (.*(?:\n(?!Error:).*){0,2})", p.stdout, re.M)
+        err.first_error = (m.group(1) if m else "")[:600]
+        m2 = re.search(r"(Attempted to[^\n]{0,200}|[^\n]{0,120}not in the domain[^\n]{0,80}|[^\n]{0,120}out of bounds[^\n]{0,40}"
+                       r"|[^\n]{0,120}was not an element[^\n]{0,80})", p.stdout)
+        if m2:
+            err.first_error = m2.group(1)
+        raise err
     return r
 
 
